@@ -1,6 +1,7 @@
 package checks
 
 import (
+	"context"
 	"fmt"
 	"math/rand"
 	"net/netip"
@@ -10,6 +11,7 @@ import (
 	"github.com/DataDog/datadog-traceroute/icmp"
 	"github.com/DataDog/datadog-traceroute/packets"
 	"github.com/DataDog/datadog-traceroute/tcp"
+	"github.com/DataDog/datadog-traceroute/traceroute"
 
 	"verif/harness/drive"
 	"verif/harness/fw"
@@ -408,7 +410,61 @@ func checkC02() fw.Check {
 					}
 				}
 			}
+			// whole requests whose target is a host NAME answered from the hosts file (IPv4-only, IPv6-only and a name
+			// with both families): every genuine reply must be recognised exactly as for the literal address
+			for _, rq := range [][2]string{{"icmp", "v4"}, {"udp", "v4"}, {"tcp", "v4"}, {"tcp/sack", "v4"}, {"icmp", "v6"}, {"udp", "v6"}, {"icmp", "dual4"}, {"udp", "dual4"}} {
+				rq := rq
+				cases = append(cases, fw.Case{ID: fmt.Sprintf("C02/request-by-name/%s/%s", rq[0], rq[1]), Bubble: true, Run: func(c *fw.Ctx) { runC02ByName(c, c.ID, rq[0], rq[1]) }})
+			}
 			return cases
 		},
+	}
+}
+
+func runC02ByName(c *fw.Ctx, id, proto, form string) {
+	resetProcessState()
+	k := 140 + c.Worker
+	v6 := form == "v6"
+	target := netip.AddrFrom4([4]byte{10, 204, byte(k), 9})
+	name := fmt.Sprintf("verif-w%d-v4", k)
+	if v6 {
+		target = netip.MustParseAddr(fmt.Sprintf("fd00:204:%x::9", k))
+		name = fmt.Sprintf("verif-w%d-v6", k)
+	}
+	if form == "dual4" {
+		name = fmt.Sprintf("verif-w%d", k)
+	}
+	method := traceroute.TCPConfigSYN
+	p := proto
+	if proto == "tcp/sack" {
+		p, method = "tcp", traceroute.TCPConfigSACK
+	}
+	port := uint16(22000 + c.Worker)
+	params := traceroute.TracerouteParams{Hostname: name, Port: int(port), Protocol: p, MinTTL: 1, MaxTTL: 6, Delay: 5, Timeout: 300 * time.Millisecond,
+		TCPMethod: method, WantV6: v6, TracerouteQueries: 2, E2eQueries: 1}
+	env, err := newReqEnv(c, params, target, port, method == traceroute.TCPConfigSACK)
+	if err != nil {
+		c.Inconclusive(err.Error())
+		return
+	}
+	defer env.close()
+	env.modelFor = func(k int, e *simEnv) *pathModel { return flowPath(k, e, 4, true, 3*time.Millisecond) }
+	res, rerr := env.run(context.Background())
+	env.monitors(id)
+	if rerr != nil {
+		c.Violate("C02", "by-name-failed/"+proto, fmt.Sprintf("%s: a fault-free request for host name %q (= %s) failed: %v", id, name, target, rerr), nil)
+		return
+	}
+	env.judgeRuns(res, id)
+	answered := 0
+	for _, run := range res.Traceroute.Runs {
+		for _, h := range run.Hops {
+			if len(h.IPAddress) > 0 {
+				answered++
+			}
+		}
+	}
+	if answered >= 4 {
+		c.Nontrivial(fmt.Sprintf("request-by-name/%s/%s", proto, form))
 	}
 }
